@@ -407,7 +407,32 @@ def run(tier):
         'writes through a complex format function are tied by the numpy provenance oracle only',
         'numpy.memmap flushing and the OS page cache are outside the model',
     ]
-    all_fail = koracle + fails
+    # SubsetSegment._from_parent_subscript (subset coordinates of a parent subscript, used when writing through subsets of subsets) is
+    # regenerated from the source and bridged: Bridge/Kernels2.lean gen_from_parent_axis / fromParentAxis_spec
+    import kernels2
+    from common import audit as _audit, lake_build as _lb, ALLOWED_AXIOMS as _AA
+    k2_info = kernels2.regen()
+    if any(n == 'from_parent_axis' for n, _ in k2_info['unsupported']):
+        broken.append('translator could not express _from_parent_subscript: ' + json.dumps(k2_info['unsupported']))
+    _ok, _failed, _errs, _log = _lb(['SarpyModel.Bridge.Kernels2'])
+    if not _ok:
+        broken.append('SarpyModel.Bridge.Kernels2 (lake build failed): ' + '; '.join(f'{f}:{l}: {m}' for f, l, c, m in _errs[:3]))
+    else:
+        _k = _audit('SarpyModel.Bridge.Kernels2', 'Sarpy.Bridge.K2')
+        for r in ('gen_from_parent_axis', 'fromParentAxis_spec', 'cnt_mul_succ'):
+            nm = 'Sarpy.Bridge.K2.' + r
+            if nm not in _k:
+                broken.append(nm + ' (required theorem missing)')
+            elif set(_k[nm]) - _AA:
+                broken.append(nm + ' depends on non-standard axioms')
+            else:
+                chk.coverage['obligations'] = chk.coverage.get('obligations', 0) + 1
+                chk.coverage['discharged'] = chk.coverage.get('discharged', 0) + 1
+                chk.coverage.setdefault('theorems', []).append(nm)
+    kfails = []
+    nk = kernels2.run_kernels(rng, tier, ['fromparent'], kfails, disagreements, stats)
+    chk.coverage['evaluations'] = chk.coverage.get('evaluations', 0) + nk
+    all_fail = koracle + fails + kfails
     unknown = [f for f in all_fail if not (classify(f) and chk.known(classify(f)))]
     for f in unknown[:5]:
         chk.violation(f['msg'], {'case': f, 'replay_cmd': './check C07 --replay <this file>'}, True)
